@@ -7,7 +7,7 @@
 //! Space: the specified spellings of each enum, each without its last character and with an extra character, "", "0", "1",
 //! "2", "00", "01", " 1", "a", "m.", "M.FAVOURITE", "u.", "u.x", "é".
 use ruma_common::{matrix_uri::UriAction, VoipVersionId};
-use ruma_events::{room::join_rules::JoinRule, tag::TagName};
+use ruma_events::{room::join_rules::JoinRule, tag::TagName, MessageLikeEventType, StateEventType, TimelineEventType};
 use serde_json::{json, Value};
 
 use super::Report;
@@ -118,13 +118,43 @@ pub fn run(_tier: &str) -> Report {
             }
         }
     }
+    // conversions between the event type enums (generated From<StateEventType> / From<MessageLikeEventType> for
+    // TimelineEventType): the result is the value that the string gives, whatever kind the string belongs to
+    for a in ["m.room.topic", "m.room.message", "m.room.member", "m.room.power_levels", "m.reaction", "m.room.encrypted", "m.call.invite", "m.room.redaction", "m.space.child",
+        "m.sticker", "org.example.custom", "m.room.topi", "m.room.topicx", ""]
+    {
+        n += 1;
+        let r = std::panic::catch_unwind(|| -> Vec<String> {
+            let mut bad = vec![];
+            let want = TimelineEventType::from(a);
+            let via_state = TimelineEventType::from(StateEventType::from(a));
+            let via_msg = TimelineEventType::from(MessageLikeEventType::from(a));
+            for (how, got) in [("StateEventType", via_state), ("MessageLikeEventType", via_msg)] {
+                if got.to_string() != a {
+                    bad.push(format!("TimelineEventType::from({how}::from({a:?})) has the string form {:?}", got.to_string()));
+                }
+                if got != want {
+                    bad.push(format!("TimelineEventType::from({how}::from({a:?})) is not equal to TimelineEventType::from({a:?}) although both have the string form {a:?}"));
+                }
+            }
+            bad
+        });
+        match r {
+            Err(_) => fail(&mut f_panic, json!({"enum": "TimelineEventType", "input": a, "observed": "panic"})),
+            Ok(bad) => {
+                for why in bad {
+                    fail(&mut f_str, json!({"enum": "TimelineEventType", "input": a, "why": why}));
+                }
+            }
+        }
+    }
     // the integer form of the legacy VoIP version
     n += 1;
     if serde_json::to_value(VoipVersionId::V0).ok() != Some(json!(0)) || serde_json::from_value::<VoipVersionId>(json!(0)).ok() != Some(VoipVersionId::V0) || VoipVersionId::V0.as_str() != "0" {
         fail(&mut f_json, json!({"enum": "VoipVersionId", "why": "V0 is not the JSON integer 0"}));
     }
     Report {
-        bound: "4 hand-written string enums (VoipVersionId, UriAction, TagName, JoinRule in its JSON object form) x specified spellings, each without its last character and with an extra character, 13 generic strings; all pairs for equality".to_owned(),
+        bound: "4 hand-written string enums (VoipVersionId, UriAction, TagName, JoinRule in its JSON object form) and the conversions of the event type enums into TimelineEventType x specified spellings, each without its last character and with an extra character, 13 generic strings; all pairs for equality".to_owned(),
         cases: n,
         obligations: vec![
             ("hand_written_conversions_keep_every_string_and_equality_follows_the_string", n, f_str),
